@@ -206,6 +206,18 @@ class Partial:
         return f"Partial({self.value!r}, {self.defined!r})"
 
 
+class Ratio:
+    """num / (den * sqrt(rad)) - closed under * and / ; produced by sqrt / x**-0.5 when Arith.ratio_mode is on."""
+
+    __slots__ = ("num", "den", "rad")
+
+    def __init__(self, num, den, rad):
+        self.num, self.den, self.rad = num, den, rad
+
+    def __repr__(self):
+        return f"Ratio({self.num}, {self.den}, sqrt({self.rad}))"
+
+
 class Arith:
     """Arithmetic over mixed concrete / symbolic values."""
 
@@ -226,6 +238,7 @@ class Arith:
         self.f_powf = z3.Function("powf", R, R, R)
         self.extra_funcs = {}
         self.fresh_n = 0
+        self.ratio_mode = False
 
     # ---- helpers -------------------------------------------------
     def fresh(self, prefix, sort="real"):
@@ -417,7 +430,13 @@ class Arith:
             return int(x.numerator)
         return x
 
+    def _ratio(self, v):
+        return v if isinstance(v, Ratio) else Ratio(v, 1, 1)
+
     def mul(self, a, b):
+        if isinstance(a, Ratio) or isinstance(b, Ratio):
+            a, b = self._ratio(a), self._ratio(b)
+            return Ratio(self.mul(a.num, b.num), self.mul(a.den, b.den), self.mul(a.rad, b.rad))
         a, b = num_of_bool(a), num_of_bool(b)
         if is_nonfinite(a) or is_nonfinite(b):
             return self._nf_binop("mul", a, b)
@@ -471,6 +490,10 @@ class Arith:
 
     def div(self, a, b):
         """True division (result real)."""
+        if isinstance(a, Ratio) or isinstance(b, Ratio):
+            a, b = self._ratio(a), self._ratio(b)
+            # (n1/(d1 sqrt r1)) / (n2/(d2 sqrt r2)) = n1 d2 r2 / (d1 n2 sqrt(r1 r2)) ... sqrt(r2) = r2/sqrt(r2)
+            return Ratio(self.mul(self.mul(a.num, b.den), b.rad), self.mul(a.den, b.num), self.mul(a.rad, b.rad))
         a, b = num_of_bool(a), num_of_bool(b)
         if is_nonfinite(a) or is_nonfinite(b):
             return self._nf_binop("div", a, b)
@@ -665,6 +688,8 @@ class Arith:
 
     def sqrt(self, x):
         x = num_of_bool(x)
+        if self.ratio_mode and is_sym(x):
+            return Ratio(x, 1, x)
         if not is_sym(x):
             if is_nonfinite(x):
                 return NAN if (math.isnan(x) or x < 0) else INF
@@ -724,6 +749,8 @@ class Arith:
             if b == Fraction(1, 2) or b == 0.5:
                 return self.sqrt(a)
             if b == Fraction(-1, 2) or b == -0.5:
+                if self.ratio_mode and is_sym(a):
+                    return Ratio(1, 1, a)
                 return self.div(1, self.sqrt(a))
             if b == -1:
                 return self.div(1, a)
